@@ -122,6 +122,100 @@ Qed.
 Definition root_value (out:bout) : list value :=
   match out with BNorm RNone => [] | BNorm v => [cv v] | BExit v => [cv v] end.
 
+(* an expression of the ROOT frame's code that is left by an exitWith inside an operand: the root scope ends with the handler's value,
+   whatever waits on the operand stack is dropped *)
+Definition RootExits (s:sstate) (e:expr) (v:rvalue) (s':sstate) : Prop :=
+  forall r c f pre post, Mach s r c f [] -> f_base f = 0 -> f_code f = pre ++ compile_expr e ++ post -> f_pos f = length pre ->
+  exists rf cf, Steps r rf /\ cur rf = Some cf /\ c_frames cf = [] /\ c_values cf = [cv v] /\
+    world rf = (mnss (st_nss s'), st_trace s') /\ do_iter rf = Ok (Return REmpty rf).
+Definition RootElemsExit (s:sstate) (l:list expr) (v:rvalue) (s':sstate) : Prop :=
+  forall r c f pre post, Mach s r c f [] -> f_base f = 0 -> f_code f = pre ++ flat_map compile_expr l ++ post -> f_pos f = length pre ->
+  exists rf cf, Steps r rf /\ cur rf = Some cf /\ c_frames cf = [] /\ c_values cf = [cv v] /\
+    world rf = (mnss (st_nss s'), st_trace s') /\ do_iter rf = Ok (Return REmpty rf).
+Lemma root_exits :
+  (forall s e v s', zev s e v s' -> True) /\ (forall s l vs s', zevs s l vs s' -> True) /\
+  (forall s reg st reg1 s1, zstmt s reg st reg1 s1 -> True) /\ (forall s reg b out s', zblock s reg b out s' -> True) /\
+  (forall k s arr i body acc acc' s', ziter k s arr i body acc acc' s' -> True) /\
+  (forall var to st s x first body acc s', zfor var to st s x first body acc s' -> True) /\
+  (forall cond body s first v s', zwhile cond body s first v s' -> True) /\
+  (forall s reg b x s', zthrow s reg b x s' -> True) /\
+  (forall s reg b t v s', zbreak s reg b t v s' -> True) /\
+  (forall s e a s', zloopleave s e a s' -> True) /\
+  (forall k s arr i body acc a s', zileave k s arr i body acc a s' -> True) /\
+  (forall var to st s x first body a s', zfleave var to st s x first body a s' -> True) /\
+  (forall cond body s first a s', zwleave cond body s first a s' -> True) /\
+  (forall s vars b a s', zscopeleave s vars b a s' -> True) /\
+  (forall s l a s', zelemsleave s l a s' -> True) /\
+  (forall s e v s', zexexit s e v s' -> RootExits s e v s') /\ (forall s l v s', zelemsexit s l v s' -> RootElemsExit s l v s').
+Proof.
+  pose proof (proj1 vm_runs_z) as EVX.
+  apply z_ind; try (intros; exact I).
+  - (* if true exitWith {..} *)
+    intros s n l x b s1 s2 out s3 HN HL _ HX _ HB _ r c f pre post MA FB EC EP.
+    rewrite compile_binary, <- !app_assoc in EC.
+    post_intro (EVX s l (RIf true) s1 HL r c f [] pre _ MA EC EP) r1 c1 f1 rest1 S1 M1 EV1 MV1 P1 K1.
+    destruct (after_operands_code f f1 pre _ _ MV1 EC EP P1) as [EC1 EP1].
+    post_intro (EVX s1 x (RCode b) s2 HX r1 c1 f1 rest1 (pre ++ compile_expr l) _ M1 EC1 EP1) r2 c2 f2 rest2 S2 M2 EV2 MV2 P2 K2.
+    destruct (after_operands_code f1 f2 _ _ _ MV2 EC1 EP1 P2) as [EC2 EP2].
+    destruct M2 as (G2 & EF2 & MM2 & B2 & D2). destruct MA as (_ & _ & _ & B & _).
+    rewrite EV1 in EV2.
+    assert (KK : Forall2 kept [] rest2) by (eapply kept_all_trans; eassumption).
+    inversion KK; subst.
+    set (c0 := set_values (set_frames c2 [set_pos f2 (S (f_pos f2))]) (c_values c)).
+    set (fdie := set_die (set_pos (set_pos f2 (S (f_pos f2))) (S (length (f_code f2)))) true).
+    set (cX := push_frame (upd_top c0 (fun f => set_die (set_pos f (S (length (f_code f)))) true))
+                          (mk_frame (cur_ns c0) (compile_block b) None None [])).
+    destruct (binary_run r2 c2 f2 [] _ _ (lower n) (cv (RIf true)) (cv (RCode b)) (c_values c) cX VNil G2 EF2 EC2 EP2 EV2) as [S3 G3].
+    { rewrite (moved_base _ _ MV2), (moved_base _ _ MV1); exact B. } { discriminate. } { discriminate. } { rewrite lower_idem, HN. reflexivity. }
+    { destruct G2 as (_ & _ & _ & _ & _ & _ & SU); exact SU. }
+    set (nf := set_base (mk_frame (cur_ns c0) (compile_block b) None None []) (length (c_values c))).
+    assert (A3 : AtM (enter s2 []) RNil (upd_cur r2 (push_value cX VNil)) (push_value cX VNil) nf [fdie] (c_values c)).
+    { split.
+      - split; [exact G3|]. split; [reflexivity|]. split.
+        + apply match_upd. destruct MM2 as [F N]. split; [|exact N]. cbn. inversion F as [|sc f0 scs fs FM F' E1 E2]; subst.
+          constructor; [|constructor; [exact FM|exact F']].
+          split; [intros k; reflexivity|split; [|split; reflexivity]]. cbn. destruct FM as (_ & NS & _). unfold cur_ns_of. rewrite <- E1. exact NS.
+        + split; [cbn; lia|rewrite quirks_upd_cur; exact D2].
+      - split; [reflexivity|]. exists [VNil]. split; [reflexivity|]. split; [reflexivity|]. split; [discriminate|nil_case]. }
+    pose proof (proj1 (proj2 (proj2 (proj2 vm_runs_z))) (enter s2 []) RNil b out s3 HB) as BE.
+    destruct (scope_ends_of_body _ _ _ _ _ BE _ _ nf fdie [] (c_values c) [] A3 (fresh_one (push_value cX VNil) (c_values c) eq_refl) eq_refl eq_refl eq_refl) as (r4 & c4 & fd4 & rest4 & S4 & M4 & EV4 & K4 & KR4).
+    { cbn. rewrite (moved_base _ _ MV2), (moved_base _ _ MV1); exact B. }
+    inversion KR4; subst.
+    destruct M4 as (G4 & EF4 & (F4 & N4) & B4 & D4).
+    destruct (complete_dead_root r4 c4 fd4 (cv (val_of out)) (c_values c) G4 EF4) as [S5 T].
+    { rewrite (kept_pos _ _ K4), (kept_code _ _ K4). reflexivity. }
+    { rewrite (kept_die _ _ K4). reflexivity. }
+    { exact EV4. }
+    { rewrite (kept_base _ _ K4). cbn. rewrite (moved_base _ _ MV2), (moved_base _ _ MV1). exact FB. }
+    set (c5 := set_values (set_frames c4 []) [cv (val_of out)]) in *.
+    exists (upd_cur r4 c5), c5.
+    split; [eapply steps_trans; [exact S1|eapply steps_trans; [exact S2|eapply steps_trans; [exact S3|eapply steps_trans; [exact S4|exact S5]]]]|].
+    destruct G4 as (C4 & _). split; [eapply cur_upd_cur; exact C4|]. split; [reflexivity|]. split; [reflexivity|].
+    split; [rewrite world_upd_cur; exact N4|exact T].
+  - (* unary operand *) intros s n a v s1 NL HX IHx r c f pre post MA FB EC EP.
+    rewrite (compile_unary_nonlit n a NL), <- app_assoc in EC. exact (IHx r c f pre _ MA FB EC EP).
+  - (* left operand *) intros s n a b v s1 HX IHx r c f pre post MA FB EC EP.
+    rewrite compile_binary, <- !app_assoc in EC. exact (IHx r c f pre _ MA FB EC EP).
+  - (* right operand *) intros s n a b va v s1 s2 HA _ HX IHx r c f pre post MA FB EC EP.
+    rewrite compile_binary, <- !app_assoc in EC.
+    post_intro (EVX s a va s1 HA r c f [] pre _ MA EC EP) r1 c1 f1 rest1 S1 M1 EV1 MV1 P1 K1.
+    destruct (after_operands_code f f1 pre _ _ MV1 EC EP P1) as [EC1 EP1].
+    inversion K1; subst.
+    destruct (IHx r1 c1 f1 (pre ++ compile_expr a) ([IBinary (lower n)] ++ post) M1) as (rf & cf & S2 & R2); [rewrite (moved_base _ _ MV1); exact FB|exact EC1|exact EP1|].
+    exists rf, cf. split; [eapply steps_trans; eassumption|exact R2].
+  - (* array *) intros s l v s1 HX IHx r c f pre post MA FB EC EP.
+    rewrite compile_array, <- app_assoc in EC. exact (IHx r c f pre _ MA FB EC EP).
+  - (* first element *) intros s e l v s1 HX IHx r c f pre post MA FB EC EP.
+    cbn [flat_map] in EC. rewrite <- app_assoc in EC. exact (IHx r c f pre _ MA FB EC EP).
+  - (* later element *) intros s e v0 l v s1 s2 HE _ NN HX IHx r c f pre post MA FB EC EP.
+    cbn [flat_map] in EC. rewrite <- app_assoc in EC.
+    post_intro (EVX s e v0 s1 HE r c f [] pre _ MA EC EP) r1 c1 f1 rest1 S1 M1 EV1 MV1 P1 K1.
+    destruct (after_operands_code f f1 pre _ _ MV1 EC EP P1) as [EC1 EP1].
+    inversion K1; subst.
+    destruct (IHx r1 c1 f1 (pre ++ compile_expr e) post M1) as (rf & cf & S2 & R2); [rewrite (moved_base _ _ MV1); exact FB|exact EC1|exact EP1|].
+    exists rf, cf. split; [eapply steps_trans; eassumption|exact R2].
+Qed.
+
 (* a block of the relation as (the rest of) the root frame's code: it runs, or is left by exitWith, and the root frame completes *)
 Theorem root_block : forall s reg b out s', zblock s reg b out s' ->
   forall r c f pre, AtM s reg r c f [] [] -> Fresh c [] -> f_code f = pre ++ compile_block b -> f_pos f = length pre -> f_exit f = None ->
@@ -140,7 +234,8 @@ Proof.
       - rewrite RR. reflexivity.
       - destruct RR as (-> & NN & _). destruct reg; try reflexivity. exfalso. apply NN. reflexivity. }
     split; [rewrite world_upd_cur; exact N|exact T]. }
-  induction 1 as [s reg|s reg st reg1 s1 HS|s reg st reg1 s1 st2 rest0 out s' HS HB IHb|s reg n l x b s1 s2 out s3 rest0 HN HL HX HB _];
+  induction 1 as [s reg|s reg st reg1 s1 HS|s reg st reg1 s1 st2 rest0 out s' HS HB IHb|s reg n l x b s1 s2 out s3 rest0 HN HL HX HB _
+                   |s reg e v s1 rest0 HXX|s reg n e v s1 rest0 HXX|s reg n e v s1 rest0 HXX];
     intros r c f pre A FR EC EP EX.
   - (* nothing left *) apply (FIN s reg r c f A); [|exact EX].
     rewrite EP, EC. unfold compile_block. cbn [compile_block_from]. rewrite app_nil_r. reflexivity.
@@ -207,6 +302,17 @@ Proof.
     split; [eapply steps_trans; [exact S1|eapply steps_trans; [exact S2|eapply steps_trans; [exact S3|eapply steps_trans; [exact S4|exact S5]]]]|].
     destruct G4 as (C4 & _). split; [eapply cur_upd_cur; exact C4|]. split; [reflexivity|]. split; [reflexivity|].
     split; [rewrite world_upd_cur; exact N4|exact T].
+  - (* a statement of the root scope whose expression is left by an exitWith inside an operand *)
+    destruct A as (MA & LB & top & EV & RR).
+    exact (proj1 (proj2 (proj2 (proj2 (proj2 (proj2 (proj2 (proj2 (proj2 (proj2 (proj2 (proj2 (proj2 (proj2 (proj2 (proj2 root_exits))))))))))))))) s e v s1 HXX r c f pre (compile_block_from false rest0) MA (eq_sym LB) EC EP).
+  - (* x = e *)
+    destruct A as (MA & LB & top & EV & RR).
+    unfold compile_block in EC. cbn [compile_block_from compile_stmt app] in EC. rewrite <- app_assoc in EC.
+    exact (proj1 (proj2 (proj2 (proj2 (proj2 (proj2 (proj2 (proj2 (proj2 (proj2 (proj2 (proj2 (proj2 (proj2 (proj2 (proj2 root_exits))))))))))))))) s e v s1 HXX r c f pre _ MA (eq_sym LB) EC EP).
+  - (* private _x = e *)
+    destruct A as (MA & LB & top & EV & RR).
+    unfold compile_block in EC. cbn [compile_block_from compile_stmt app] in EC. rewrite <- app_assoc in EC.
+    exact (proj1 (proj2 (proj2 (proj2 (proj2 (proj2 (proj2 (proj2 (proj2 (proj2 (proj2 (proj2 (proj2 (proj2 (proj2 (proj2 root_exits))))))))))))))) s e v s1 HXX r c f pre _ MA (eq_sym LB) EC EP).
 Qed.
 
 (* a whole program whose root scope may be left by exitWith *)
